@@ -63,6 +63,10 @@ fn children_body(d: i32, n: usize) {
     if i < j {
         assert!(ch[i] < ch[j]);
     }
+    // and each child is the one the bit-level child rule names
+    if d == 1 {
+        assert!(ch[i] == spec_child(id, i as u64));
+    }
     kani::cover!(c.resolution == 1);
     kani::cover!(c.resolution == 29 - d && i == n - 1);
     core::mem::forget(ch);
